@@ -808,65 +808,44 @@ func (n *IncludeNode) Render(w io.Writer, ctx *RenderContext) error {
 		}
 	}
 
-	// Create optimized context handling for includes
+	// The included template always renders in a context of its own, so that nothing
+	// it sets, loops over, receives through "with" or defines (blocks, macros)
+	// changes what the including template sees afterwards
+	var includeCtx *RenderContext
+	if n.only {
+		// Only mode - the including template's variables are hidden
+		includeCtx = NewRenderContext(ctx.env, nil, ctx.engine)
+		// A sandbox, once entered, covers everything rendered below it
+		includeCtx.sandboxed = ctx.sandboxed
+	} else {
+		// Child context with read access to the including template's variables
+		includeCtx = ctx.Clone()
+	}
+	defer includeCtx.Release()
 
-	// Fast path: if no special handling needed and not sandboxed, render with current context
-	if !n.only && !n.sandboxed && len(n.variables) == 0 {
-		// Clone the context but with the new lastLoadedTemplate
-		includeCtx := ctx.Clone()
-		includeCtx.lastLoadedTemplate = template
-		defer includeCtx.Release()
+	// Set the template as the lastLoadedTemplate for relative path resolution
+	includeCtx.lastLoadedTemplate = template
 
-		return template.nodes.Render(w, includeCtx)
+	// If sandboxed, enable sandbox mode
+	if n.sandboxed {
+		// Check if a security policy is defined
+		if ctx.env.securityPolicy == nil {
+			return fmt.Errorf("cannot use sandboxed include without a security policy")
+		}
+		includeCtx.sandboxed = true
 	}
 
-	// Need a new context for 'only' mode, sandboxed mode, or with variables
-	includeCtx := ctx
-	if n.only || n.sandboxed {
-		var contextVars map[string]interface{}
-
-		if n.only {
-			// Only mode - create empty context
-			contextVars = make(map[string]interface{}, len(n.variables))
-		} else {
-			// For sandboxed mode but not 'only' mode, copy the parent context
-			contextVars = make(map[string]interface{}, len(ctx.context)+len(n.variables))
-			for k, v := range ctx.context {
-				contextVars[k] = v
-			}
+	// Evaluate the "with" variables in the including template's context
+	for name, valueNode := range n.variables {
+		value, err := ctx.EvaluateExpression(valueNode)
+		if err != nil {
+			return err
 		}
-
-		// Create a new context
-		includeCtx = NewRenderContext(ctx.env, contextVars, ctx.engine)
-		// Set the template as the lastLoadedTemplate for relative path resolutionn			includeCtx.lastLoadedTemplate = template
-		defer includeCtx.Release()
-
-		// If sandboxed, enable sandbox mode
-		if n.sandboxed {
-			includeCtx.sandboxed = true
-
-			// Check if a security policy is defined
-			if ctx.env.securityPolicy == nil {
-				return fmt.Errorf("cannot use sandboxed include without a security policy")
-			}
-		}
-	}
-
-	// Pre-evaluate all variables before setting them
-	if len(n.variables) > 0 {
-		for name, valueNode := range n.variables {
-			value, err := ctx.EvaluateExpression(valueNode)
-			if err != nil {
-				return err
-			}
-			includeCtx.SetVariable(name, value)
-		}
+		includeCtx.SetVariable(name, value)
 	}
 
 	// Render the included template
-	err = template.nodes.Render(w, includeCtx)
-
-	return err
+	return template.nodes.Render(w, includeCtx)
 }
 
 // SetNode represents a variable assignment
